@@ -21,6 +21,7 @@ def fop? (x : Sx) : Option FOp := do
   | [Sx.atom "setrev", r] => some (.setRev (← r.nat?))
   | [Sx.atom "clear"] => some .clear
   | [Sx.atom "active", b] => some (.setActive (← b.bool?))
+  | [Sx.atom "archive", b] => some (.setArchive (← b.bool?))
   | _ => none
 
 def ofMsg (m : Msg) : Sx := Sx.list [Sx.ofNat m.job, Sx.ofNat m.target, Sx.ofNat m.runid]
@@ -34,7 +35,8 @@ def ofWire : Wire → Sx
 def observe (s s' : FSt) : Sx :=
   Sx.list [Sx.list (s'.workers.map Sx.ofNat), Sx.list (s'.cluster.map ofMsg),
            Sx.list (s'.busy.map fun p => Sx.list [Sx.ofNat p.1, Sx.ofNat p.2]),
-           Sx.list ((s'.log.drop s.log.length).map fun p => Sx.list [Sx.ofNat p.1, ofWire p.2])]
+           Sx.list ((s'.log.drop s.log.length).map fun p => Sx.list [Sx.ofNat p.1, ofWire p.2]),
+           Sx.ofBool s'.active]
 
 def runObs : FSt → List FOp → List Sx
   | _, [] => []
